@@ -395,7 +395,7 @@ class SScal:
         return z3.is_rational_value(self.im) and self.im.numerator_as_long() == 0
 
     def __add__(self, o):
-        if isinstance(o, AMat) or hasattr(o, "_matmat"):
+        if isinstance(o, AMat) or hasattr(o, "_matmat") or type(o).__name__ in ("CF", "HProd", "Mask"):
             return NotImplemented
         o = SScal.lift(o)
         return SScal(self.re + o.re, self.im + o.im, self.dtype or o.dtype)
@@ -422,7 +422,7 @@ class SScal:
         return z3.eq(self.re, z3.RealVal(1)) and self.is_real()
 
     def __mul__(self, o):
-        if isinstance(o, (AMat, BCol, BRow)) or hasattr(o, "_matmat"):
+        if isinstance(o, (AMat, BCol, BRow)) or hasattr(o, "_matmat") or type(o).__name__ in ("CF", "HProd", "Mask"):
             return NotImplemented
         o = SScal.lift(o)
         if getattr(self, "dimn", False) and getattr(o, "dimn", False):
